@@ -36,6 +36,52 @@ fn word_ok(w: &str) -> bool {
             .all(|c| c.is_ascii_alphanumeric() || "_.:,/=+@-".contains(c))
 }
 
+/// split on blanks, honouring "..." and '...' (no escapes, no expansions inside)
+fn tokenize(s: &str) -> Option<Vec<(String, bool)>> {
+    let mut out: Vec<(String, bool)> = vec![];
+    let mut cur = String::new();
+    let mut quoted = false;
+    let mut in_tok = false;
+    let mut it = s.chars();
+    while let Some(c) = it.next() {
+        match c {
+            ' ' | '\t' => {
+                if in_tok {
+                    out.push((std::mem::take(&mut cur), quoted));
+                    in_tok = false;
+                    quoted = false;
+                }
+            }
+            '"' | '\'' => {
+                in_tok = true;
+                quoted = true;
+                loop {
+                    let d = it.next()?;
+                    if d == c {
+                        break;
+                    }
+                    if c == '"' && (d == '$' || d == '`' || d == '\\' || d == '!') {
+                        return None;
+                    }
+                    if d == '\\' {
+                        return None; // dash's echo interprets backslash escapes
+                    }
+                    cur.push(d);
+                }
+            }
+            '$' | '`' | '\\' | '&' | '|' | '<' | '>' | '(' | ')' | '*' | '?' | '[' | '~' | '#' | '!' | '{' => return None,
+            c => {
+                in_tok = true;
+                cur.push(c);
+            }
+        }
+    }
+    if in_tok {
+        out.push((cur, quoted));
+    }
+    Some(out)
+}
+
 fn unescape_printf(fmt: &str) -> Option<String> {
     let mut out = String::new();
     let mut it = fmt.chars();
@@ -81,6 +127,27 @@ pub fn run(cmd: &str, cwd_abs: &str, marker_dir: Option<&str>, read: &mut dyn Fn
                 return unknown();
             };
             res.stdout.push_str(&text);
+            res.status = 0;
+            continue;
+        }
+        // echo with quoted arguments and -n (dash's builtin): echo [-n] (WORD | "text" | 'text')...
+        if atom.starts_with("echo ") && (atom.contains('"') || atom.contains('\'') || atom.starts_with("echo -n")) {
+            let Some(toks) = tokenize(&atom[5..]) else { return unknown() };
+            let mut toks = toks.as_slice();
+            let mut newline = true;
+            if let Some((t, false)) = toks.first().map(|t| (t.0.as_str(), t.1)) {
+                if t == "-n" {
+                    newline = false;
+                    toks = &toks[1..];
+                }
+            }
+            if !toks.iter().all(|(t, quoted)| *quoted || word_ok(t)) {
+                return unknown();
+            }
+            res.stdout.push_str(&toks.iter().map(|t| t.0.as_str()).collect::<Vec<_>>().join(" "));
+            if newline {
+                res.stdout.push('\n');
+            }
             res.status = 0;
             continue;
         }
